@@ -147,8 +147,8 @@ pub trait ScopeOps {
     fn x_prepare(&self, l: Layout, dyn_: bool) -> R<(usize, usize)>;
     fn x_commit(&self, l: Layout, range: (usize, usize), rev: bool, dyn_: bool) -> usize;
     /// returns (pointer, cap): pointer = start of slots (forward) / end of slots (rev)
-    fn x_prepare_slice(&self, e: Elem, cap: usize, rev: bool) -> R<(usize, usize)>;
-    fn x_commit_slice(&self, e: Elem, ptr: usize, len: usize, cap: usize, rev: bool) -> (usize, usize);
+    fn x_prepare_slice(&self, e: Elem, cap: usize, rev: bool, dyn_: bool) -> R<(usize, usize)>;
+    fn x_commit_slice(&self, e: Elem, ptr: usize, len: usize, cap: usize, rev: bool, dyn_: bool) -> (usize, usize);
     fn x_reserve(&self, n: usize, dyn_: bool) -> R<()>;
     fn x_checkpoint(&self) -> Checkpoint;
     fn x_reset_to(&self, cp: Checkpoint);
@@ -362,17 +362,31 @@ where
             p.as_ptr() as usize
         }
     }
-    fn x_prepare_slice(&self, e: Elem, cap: usize, rev: bool) -> R<(usize, usize)> {
-        for_elem!(e, T => if rev {
+    fn x_prepare_slice(&self, e: Elem, cap: usize, rev: bool, dyn_: bool) -> R<(usize, usize)> {
+        for_elem!(e, T => if dyn_ {
+            let d: &dyn BumpAllocatorCore = &*self;
+            if rev {
+                d.try_prepare_slice_allocation_rev::<T>(cap).map(|(p, c)| (p.as_ptr() as usize, c)).map_err(|_| ())
+            } else {
+                d.try_prepare_slice_allocation::<T>(cap).map(|p| (p.cast::<T>().as_ptr() as usize, p.len())).map_err(|_| ())
+            }
+        } else if rev {
             self.try_prepare_slice_allocation_rev::<T>(cap).map(|(p, c)| (p.as_ptr() as usize, c)).map_err(|_| ())
         } else {
             self.try_prepare_slice_allocation::<T>(cap).map(|p| (p.cast::<T>().as_ptr() as usize, p.len())).map_err(|_| ())
         })
     }
-    fn x_commit_slice(&self, e: Elem, ptr: usize, len: usize, cap: usize, rev: bool) -> (usize, usize) {
+    fn x_commit_slice(&self, e: Elem, ptr: usize, len: usize, cap: usize, rev: bool, dyn_: bool) -> (usize, usize) {
         for_elem!(e, T => unsafe {
             let p = NonNull::new(ptr as *mut T).unwrap();
-            let s = if rev { self.allocate_prepared_slice_rev::<T>(p, len, cap) } else { self.allocate_prepared_slice::<T>(p, len, cap) };
+            let s = if dyn_ {
+                let d: &dyn BumpAllocatorCore = &*self;
+                if rev { d.allocate_prepared_slice_rev::<T>(p, len, cap) } else { d.allocate_prepared_slice::<T>(p, len, cap) }
+            } else if rev {
+                self.allocate_prepared_slice_rev::<T>(p, len, cap)
+            } else {
+                self.allocate_prepared_slice::<T>(p, len, cap)
+            };
             (s.cast::<T>().as_ptr() as usize, s.len())
         })
     }
